@@ -319,7 +319,7 @@ package frame
 //@   modifies ColMem, colClock
 
 // A Frame used as a slicetype.Type describes its own columns.
-//@ axiom frame-as-type: typeNumOut(boxed(f, slicetype.Type)) == len(f.data) && typePrefix(boxed(f, slicetype.Type)) == f.prefix + 1
+//@ axiom frame-as-type: implies(len(f.data) >= 0, typeNumOut(boxed(f, slicetype.Type)) == len(f.data) && typePrefix(boxed(f, slicetype.Type)) == f.prefix + 1)
 //@   vars f Frame
 
 //@ func frame.Frame.grow (need) (g, i0, i1)
